@@ -394,6 +394,42 @@ def rule_call_flag(model):
                           'raised by a called value makes the search fall '
                           'through to a lower-priority source', node=t,
                           ctx=f2)
+    # every pushed source is consulted: the only way the search loop moves
+    # on to the next source is the KeyError / NameError of the lookup (a
+    # truth test of the source would skip mappings that are "empty" as
+    # containers but still answer names: defaultdict, __missing__, lazy
+    # records)
+    for name in ('getitem', '__contains__'):
+        f2 = model.func('_DocumentTemplate', 'TemplateDict.' + name)
+        for h in [x for x in model.closure(f2) if x.cls is f2.cls]:
+            for lp in [n for n in own_nodes(h.node)
+                       if isinstance(n, ast.For) and '_data' in norm(n.iter)]:
+                for c in ast.walk(lp):
+                    if not isinstance(c, ast.Continue):
+                        continue
+                    in_handler = any(isinstance(a, ast.ExceptHandler)
+                                     for a in ancestors(c)
+                                     if a is not lp)
+                    # ancestors beyond the loop do not count
+                    inside = []
+                    for a in ancestors(c):
+                        if a is lp:
+                            break
+                        inside.append(a)
+                    in_handler = any(isinstance(a, ast.ExceptHandler)
+                                     for a in inside)
+                    r.instance(h.where, c, 'after a failed lookup'
+                               if in_handler else 'SOURCE SKIPPED')
+                    if not in_handler:
+                        test = next((norm(a.test) for a in inside
+                                     if isinstance(a, ast.If)), '?')
+                        r.finding(h.where, f'continue under `{test}`',
+                                  'a source on the namespace stack is '
+                                  'skipped without being asked for the '
+                                  f'name (`{test}`): a mapping that is '
+                                  'false as a container but answers names '
+                                  'no longer shadows the sources below it',
+                                  node=c, ctx=h)
     if ncalls < 3:
         raise AnalysisError('TemplateDict.getitem: auto-call sites not '
                             f'found ({ncalls})')
